@@ -110,8 +110,7 @@ Definition extract_min (q : list node) : option (node * list node) :=
 
 (* the criterion filter, resolver.rs:1596-1601 *)
 Definition usable (m : search_mode) (c : N) (e : edge) : bool :=
-  (match m, e_origin e with RegenerateExemptions, OExemption _ => true | _, _ => false end
-   || cs_has c (e_crit e))%bool.
+  usable_src m (fst (okind_of (e_origin e))) (cs_has c (e_crit e)).
 
 Definition push_edges (m : search_mode) (c : N) (visited : list ver) (n : node) (es : list edge) : list node :=
   flat_map (fun e =>
